@@ -74,13 +74,12 @@ pub fn replay(cases: &[Value], out: &mut TraceOut) {
         let (tx, rx) = Payload::create(eof);
         let mut tx = Some(tx); // PayloadSender is not nameable from outside the crate
         let mut rx: Option<Payload> = Some(rx);
-        let rw = Arc::new(CountWaker(AtomicUsize::new(0)));
-        let iw = Arc::new(CountWaker(AtomicUsize::new(0)));
-        let rwaker = Waker::from(rw.clone());
-        let iwaker = Waker::from(iw.clone());
+        // every poll / need_read uses a NEW waker: the party that must be woken is whoever asked last
+        let mut rw = Arc::new(CountWaker(AtomicUsize::new(0)));
+        let mut iw = Arc::new(CountWaker(AtomicUsize::new(0)));
         for op in case["ops"].as_array().unwrap() {
             let o = op["op"].as_str().unwrap();
-            let (r0, i0) = (rw.0.load(Ordering::SeqCst), iw.0.load(Ordering::SeqCst));
+            let (mut r0, mut i0) = (rw.0.load(Ordering::SeqCst), iw.0.load(Ordering::SeqCst));
             let res = guarded(|| -> Option<Value> {
                 match o {
                     "FeedData" => {
@@ -103,12 +102,18 @@ pub fn replay(cases: &[Value], out: &mut TraceOut) {
                         Some(json!({"ev":"DropSender"}))
                     }
                     "NeedRead" => {
+                        iw = Arc::new(CountWaker(AtomicUsize::new(0)));
+                        i0 = 0;
+                        let iwaker = Waker::from(iw.clone());
                         let mut cx = Context::from_waker(&iwaker);
                         let st = tx.as_ref()?.need_read(&mut cx);
                         let ret = format!("{st:?}").to_lowercase(); // PayloadStatus: Read | Pause | Dropped
                         Some(json!({"ev":"NeedRead","ret":ret}))
                     }
                     "Poll" => {
+                        rw = Arc::new(CountWaker(AtomicUsize::new(0)));
+                        r0 = 0;
+                        let rwaker = Waker::from(rw.clone());
                         let mut cx = Context::from_waker(&rwaker);
                         match Pin::new(rx.as_mut()?).poll_next(&mut cx) {
                             Poll::Pending => Some(json!({"ev":"Poll","ret":"pending"})),
